@@ -456,7 +456,8 @@ SeparationConstraint::SeparationConstraint(const vpsc::Dim dim,
         bool equality) 
     : CompoundConstraint(dim),
       gap(g),
-      equality(equality)
+      equality(equality),
+      vpscConstraint(nullptr)
 {
     COLA_ASSERT(l);
     COLA_ASSERT(r);
